@@ -123,9 +123,13 @@ def r1_r2(ctx):
         if inner[0] == "call" and inner[1].endswith("PacketKind::is_whoareyou"):
             f, tr = g.bool_edges(bi)
             way.append((bi, f if not neg else tr))
-        if inner[0] == "call" and short(inner[1]).endswith("Vec::is_empty") and "RangeFrom" in fmt(inner):
-            f, tr = g.bool_edges(bi)
-            way.append((bi, tr if not neg else f))
+        if inner[0] == "call" and re.search(r"(Vec|slice|\[T\]>?)::is_empty$", short(inner[1])) and inner[2]:
+            # the message part: the datagram from the end of the auth-data on (`data[39 + n..]`, `rest.split_at(n).1`)
+            sb, sst, sen = slice_span(inner[2][0])
+            tail_of_data = canon(sb) == ("param", b_idx(b, "data"), "data") and sen is None and sst is not None and (sst[0] or sst[1] >= 39)
+            if "RangeFrom" in fmt(inner) or tail_of_data:
+                f, tr = g.bool_edges(bi)
+                way.append((bi, tr if not neg else f))
     for name, edges, msg in (("protocol-id", pid_e, "a foreign protocol id"), ("version", ver_e, "a foreign protocol version"),
                              ("auth-data-size", sz_e, "an auth-data size larger than the rest of the datagram"),
                              ("kind-decodes", kd_ok, "auth-data that PacketKind::decode rejected"),
